@@ -246,6 +246,16 @@ class DirtyCache(Component):
         if not x or x[0] != "cmp":
             return
         node, left, rights = x[1], x[2], x[3]
+        if len(rights) == 1 and isinstance(node.ops[0], (ast.Is, ast.IsNot)) and rights[0].has_const() and rights[0].const is None:
+            # `self._x is None` on a lazily filled cache: on the branch where it is None the cache is absent (nothing to lag behind)
+            none_when = isinstance(node.ops[0], ast.Is) != neg
+            state = st.comp[self.name]
+            for (oid, attr) in left.al:
+                if attr in CACHE_PARTS and oid in self.tracked and attr in self.tracked[oid] and truth == none_when:
+                    for p_ in CACHE_PARTS[attr]:
+                        if (oid, attr, p_) in state:
+                            state[(oid, attr, p_)] = "absent"
+            return
         if len(rights) != 1 or not isinstance(node.ops[0], (ast.In, ast.NotIn)):
             return
         if not (left.has_const() and isinstance(left.const, str) and rights[0].kind == "objdict"):
@@ -349,6 +359,8 @@ class DirtyCache(Component):
                 if state.get((oid, attr, "")) == "absent":
                     state[(oid, attr, "")] = "clean"
                     return
+            if bad and _is_none_test_read(ev, attr):
+                return          # `if self._x is None:` looks at presence only, not at the value
             if bad:
                 self.provisional.append((ev.loc, ev.stmt, ev, bad))
             return
@@ -378,6 +390,11 @@ class DirtyCache(Component):
             parts = CACHE_PARTS[attr] if part in ("all",) else (part,)
             rhs = ev.rhs
             own = rhs is not None and ev.loc in rhs.deps and ev.mode == "rebind"
+            if ev.mode == "rebind" and rhs is not None and rhs.has_const() and rhs.const is None:
+                for p in CACHE_PARTS[attr]:
+                    if (oid, attr, p) in state:
+                        state[(oid, attr, p)] = "absent"          # invalidated: refilled on the next read
+                return
             for p in parts:
                 key = (oid, attr, p)
                 cur = state.get(key)
@@ -512,6 +529,44 @@ class DirtyCache(Component):
                     continue
                 out.append((key, cur, n))
         return out
+
+
+def _lazy_fill(interp, ev, attr):
+    """the store `self.<attr> = ...` sits in the body of `if self.<attr> is None:` (or the else of `is not None`)."""
+    fn = interp.frames[-1].fn.node if interp.frames else None
+    if fn is None:
+        return False
+    for n in ast.walk(fn):
+        if not isinstance(n, ast.If):
+            continue
+        t = n.test
+        neg = False
+        if isinstance(t, ast.UnaryOp) and isinstance(t.op, ast.Not):
+            t, neg = t.operand, True
+        if isinstance(t, ast.Compare) and len(t.ops) == 1 and isinstance(t.ops[0], (ast.Is, ast.IsNot)) \
+                and isinstance(t.comparators[0], ast.Constant) and t.comparators[0].value is None \
+                and isinstance(t.left, ast.Attribute) and t.left.attr == attr and isinstance(t.left.value, ast.Name) and t.left.value.id == "self":
+            none_branch = n.body if (isinstance(t.ops[0], ast.Is) != neg) else n.orelse
+            if any(ev.node is m for b in none_branch for m in ast.walk(b)):
+                return True
+    return False
+
+
+def _is_none_test_read(ev, attr):
+    """the read of self.<attr> is the operand of an `is None` / `is not None` comparison (possibly under `not`)."""
+    n = ev.node
+    stmt = ev.f.get("stmt")
+    if stmt is None:
+        return False
+    roots = [stmt.test] if isinstance(stmt, (ast.If, ast.While)) and hasattr(stmt, "test") else [stmt]
+    for root in roots:
+        for c in ast.walk(root):
+            if isinstance(c, ast.Compare) and len(c.ops) == 1 and isinstance(c.ops[0], (ast.Is, ast.IsNot)) \
+                    and isinstance(c.comparators[0], ast.Constant) and c.comparators[0].value is None \
+                    and (c.left is n or (isinstance(c.left, ast.Attribute) and c.left.attr == attr and getattr(n, "attr", None) == attr
+                                         and getattr(n, "lineno", -1) == c.left.lineno and getattr(n, "col_offset", -1) == c.left.col_offset)):
+                return True
+    return False
 
 
 def _is_minus_one(v):
@@ -714,6 +769,9 @@ class Moved(Component):
                 return
             if self._protocol_frame(interp) is not None:
                 return
+            if ev.mode == "rebind" and attr in CACHE_PARTS and _lazy_fill(interp, ev, attr):
+                return      # `if self._x is None: self._x = compute()`: filling a derived cache is not an observable effect
+                            # (that the cache never lags behind the geometry is C03's obligation: COH-1/2)
             self.effects.append((ev, f"writes {oid}.{attr} ({ev.mode})"))
             root = oid
             if ev.mode == "rebind" and attr in self.byref and any(m == oid or oid.startswith(m) or m.startswith(oid) for m in cur["moved"]):
